@@ -1,12 +1,15 @@
 """C23 — log rotation and flushing never lose or duplicate retained records.
 Model:    lean/IofloModel/Model/Rotate.lean (Log.reopen/close/flush/cycle, Logger.log timers, runner START/RUN/STOP,
-          the file system as the ordered trace of primitive operations; every prefix of the trace is a crash point)
+          one log of any rule, several process lives on one directory; the file system as the ordered trace of
+          primitive operations; every prefix of the trace is a crash point)
 Theorems: lean/IofloModel/Props/C23.lean
-Tie:      a real Logger with one 'always' Log on /verif/.scratch/log/<pid>; every file-system primitive the code
-          performs (ocfn, file.write/flush/close, os.fsync, os.rename) is intercepted and the files are read back
-          from disk *before* it runs: that is what a kill at that point leaves.  The sequence of distinct crash states
-          is compared with the model's; sampled (thorough: all) crash points are also produced by really killing a
-          forked child with os._exit and compared with the read-back.
+Tie:      a real Logger with one Log (rule always / once / update / change / deck / streak / never) under
+          /verif/.scratch/log/<pid>; every file-system primitive the code performs (ocfn, file.write/flush/close,
+          os.fsync, os.rename) is intercepted and the files are read back from disk *before* it runs: that is what a
+          kill at that point leaves.  A history may span several process lives (fresh House/Store/Logger/Log objects on
+          the same prefix; a life ends after STOP or by a kill that discards the buffers).  The sequence of distinct
+          crash states is compared with the model's; sampled (thorough: all, for selected cases) crash points are also
+          produced by really killing a forked child with os._exit and compared with the read-back.
 Oracle:   the property clauses evaluated directly on every crash state of the real run (contiguity across the
           retained files, headers, newest file = records since the last rotation, rotation only at the size threshold,
           everything written before the last flush present).
@@ -18,7 +21,13 @@ ROOT = os.path.join(core.SCRATCH, "log", "r%d" % os.getpid())
 _made = [False]
 BASE = "lg"
 TAG = "v"
-HEADER = "text\tAlways\t%s\n_time\t%s\n" % (BASE, TAG)
+RULES = ["always", "once", "update", "change", "deck", "streak", "never"]
+RULENAME = {"never": "Never", "once": "Once", "always": "Always", "update": "Update", "change": "Change",
+            "streak": "Streak", "deck": "Deck"}
+
+
+def header(rule):
+    return "text\t%s\t%s\n_time\t%s\n" % (RULENAME[rule], BASE, TAG)
 
 
 def _cleanup():
@@ -36,10 +45,6 @@ def scratch():
         atexit.register(_cleanup)
         _made[0] = True
     return ROOT
-
-
-class Killed(BaseException):
-    pass
 
 
 class Proxy(object):
@@ -70,19 +75,20 @@ class Proxy(object):
 class Recorder(object):
     """intercepts the primitives; before each one: count it, optionally die, snapshot the directory"""
 
-    def __init__(self, paths, kill_at=None, snapshots=True):
-        self.paths = paths            # newest first: main, copy 1, ...
+    def __init__(self, kill_at=None, snapshots=True):
+        self.paths = []               # newest first: main, copy 1, ...
         self.n = 0
         self.kill_at = kill_at
         self.snapshots = snapshots
-        self.snaps = []               # (state string, n records written, n records flushed, rotStart, bounds)
-        self.bounds = []              # number of records written at each rotation of the main file
-        self.events = []
-        self.nw = 0                   # records written (into the buffer)
-        self.nf = 0                   # records written before the most recent completed flush
+        self.muted = False
+        self.snaps = []               # (state, surviving stream, n flushed, rotStart index, bounds)
+        self.stream = []              # numbers of the records written and not lost with a killed process
+        self.nf = 0                   # how many of them were written before the most recent completed flush
         self.pending_flush = None
         self.rot_start = 0
+        self.bounds = []              # len(stream) at each rotation of the main file
         self.renames = []             # (k, size of source or None)
+        self.files = []               # proxies handed out in this life
 
     def read_state(self):
         out = []
@@ -95,29 +101,34 @@ class Recorder(object):
             out.append(canon_file(data))
         return ";".join(out)
 
+    def snap(self):
+        self.snaps.append((self.read_state(), tuple(self.stream), self.nf, self.rot_start, tuple(self.bounds)))
+
     def event(self, kind, arg=None):
-        # the previous primitive has completed now
-        if self.pending_flush is not None:
+        if self.muted:
+            return
+        if self.pending_flush is not None:      # the previous primitive has completed now
             self.nf = self.pending_flush
             self.pending_flush = None
         if self.kill_at is not None and self.n == self.kill_at:
             os._exit(0)
         if self.snapshots:
-            self.snaps.append((self.read_state(), self.nw, self.nf, self.rot_start, tuple(self.bounds)))
+            self.snap()
         self.n += 1
         if kind == "write":
-            if not arg.startswith("text\t"):
-                self.nw += 1
+            for line in arg.split("\n"):
+                parts = line.split("\t")
+                if len(parts) == 2 and parts[1].startswith("r") and "_" in parts[1] and parts[1][1:parts[1].index("_")].isdigit():
+                    self.stream.append(int(parts[1][1:parts[1].index("_")]))
         elif kind in ("flush", "close"):
-            self.pending_flush = self.nw
+            self.pending_flush = len(self.stream)
         elif kind == "rename":
             k, src = arg
             size = os.path.getsize(src) if os.path.exists(src) else None
             self.renames.append((k, size))
             if k == 0 and size is not None:
-                self.rot_start = self.nw
-                self.bounds.append(self.nw)
-        self.events.append(kind)
+                self.rot_start = len(self.stream)
+                self.bounds.append(len(self.stream))
 
     def finish(self):
         if self.pending_flush is not None:
@@ -126,7 +137,14 @@ class Recorder(object):
         if self.kill_at is not None and self.n == self.kill_at:
             os._exit(0)
         if self.snapshots:
-            self.snaps.append((self.read_state(), self.nw, self.nf, self.rot_start, tuple(self.bounds)))
+            self.snap()
+
+    def life_ends(self):
+        """the process dies: what was not flushed is gone"""
+        if self.pending_flush is not None:
+            self.nf = self.pending_flush
+            self.pending_flush = None
+        del self.stream[self.nf:]
 
 
 def canon_file(data):
@@ -162,7 +180,6 @@ def canon_file(data):
 
 
 def parse_state(state):
-    """list (newest first) of None | list of tokens"""
     out = []
     for f in state.split(";"):
         if f == "-":
@@ -181,82 +198,176 @@ def proto_ok(ops):
             return False
         if o.startswith("ctl "):
             st = {"start": "started", "run": "running", "stop": "stopped"}[o[4:]]
+        elif o == "reboot":
+            st = "stopped"
     return True
+
+
+class Plan(object):
+    """what the harness' writer does and what the log's rule will then write, run by run (used both to drive the
+    real objects and to tell the model how many records of which size each run writes)"""
+
+    def __init__(self, rule):
+        self.rule = rule
+        self.n = 0              # records written so far (also by lives that were killed)
+        self.pad = 0
+        self.new_life()
+
+    def new_life(self):
+        self.stamp = 0          # store stamp of this life, 1/8 s
+        self.status = "stopped"
+        self.first = True       # the Log object has not logged yet
+        self.dirty = False
+        self.queue = []         # values queued and not yet logged (deck / streak)
+        self.cur = self.value() # the value the share holds (value rules)
+        self.last_rec_stamp = None
+
+    def value(self, k=0):
+        return "r%d_%s" % (self.n + k, "x" * self.pad)
+
+    def line(self, val):
+        return "%s\t%s\n" % (repr(self.stamp / 8.0), val)
+
+    def put(self, k):
+        """the writer queues k items (deck / streak) or updates the value (update / change); returns the new
+        values, [] when it does nothing"""
+        if self.rule in ("deck", "streak"):
+            vals = [self.value(len(self.queue) + i) for i in range(k)]
+            self.queue += vals
+            return vals
+        if self.rule in ("update", "change"):
+            # update rule: an update in the tick of the last record is the known finding D12 (C22); never generate it
+            if self.rule == "update" and self.last_rec_stamp == self.stamp:
+                return []
+            self.dirty = True
+            self.cur = self.value()
+            return [self.cur]
+        return []
+
+    def before_run(self):
+        """always / once / never: the writer sets a fresh value before every run; returns it or None"""
+        if self.rule in ("always", "once", "never"):
+            self.cur = self.value()
+            return self.cur
+        return None
+
+    def batch(self):
+        """sizes of the records the next run writes, or None when its action makes no write call"""
+        r = self.rule
+        if r == "never":
+            return None
+        if r == "always":
+            vals = [self.cur]
+        elif r == "once":
+            vals = [self.cur] if self.first else None
+        elif r in ("update", "change"):
+            vals = [self.cur] if (self.first or self.dirty) else None
+        elif r == "deck":
+            vals = list(self.queue) if self.queue else None
+        elif r == "streak":
+            vals = list(self.queue)
+        if vals is None:
+            return None
+        return [len(self.line(v)) for v in vals]
+
+    def ran(self, b):
+        if self.rule in ("always", "once", "update", "change") and b is not None:
+            self.first = False
+            self.dirty = False
+        if self.rule in ("deck", "streak"):
+            self.first = False
+            self.queue = []
+        if b:
+            self.n += len(b)
+            self.last_rec_stamp = self.stamp
 
 
 class CHECK(core.Check):
     PROPERTY = "C23"
     LEAN_MODULES = ["IofloModel.Props.C23"]
     ENGINE = "rotate"
-    N_QUICK = 60
-    N_THOROUGH = 1500
-    N_SEARCH = 300
+    N_QUICK = 90
+    N_THOROUGH = 1000
+    N_SEARCH = 200
     RULE = ("configurations keep 0-3 x cyclePeriod {0,.25,.5,1,2,3 s} x fileSize {0,40..300 bytes} x flushPeriod "
-            "{0,1,1.5,2,4 s} x reuse, record streams of 2-16 ticks with varying record sizes, tick lengths 1/8-1.5 s, "
-            "restarts (STOP/START); a small full grid of configurations over one fixed stream; every primitive of every "
-            "run is a crash point (read-back), and 1-2 sampled crash points per case (quick: every 4th case; all points for "
-            "selected cases) are produced by killing a forked child; non-trivial = at least two records written; "
-            "distinct by case content")
-    TRUSTED = ["correspondence: a real Logger with one 'always' Log on /verif/.scratch/log/<pid>; ocfn, file.write/flush/"
-               "close, os.fsync and os.rename are intercepted, the directory is read back from disk before each one (what a "
-               "kill at that point leaves) and the sequence of distinct crash states is compared with the Lean driver "
-               "'rotate'; sampled crash points are checked against a forked child really killed with os._exit",
+            "{0,1,1.5,2,4 s} x reuse x log rule {always, once, update, change, deck, streak, never}; record streams of "
+            "2-16 ticks with varying record sizes and batch sizes (deck/streak: 0-3 queued items per tick), tick lengths "
+            "1/8-1.5 s, restarts (STOP/START) and 1-3 process lives (fresh Logger/Log objects on the same prefix; a life "
+            "ends after STOP or by a kill that discards the buffers); a small full grid of configurations over fixed "
+            "streams; every primitive of every run is a crash point (read-back), and sampled crash points (all points for "
+            "selected cases) are produced by killing a forked child; non-trivial = at least two records written; distinct "
+            "by case content")
+    TRUSTED = ["correspondence: a real Logger with one Log on /verif/.scratch/log/<pid>; ocfn, file.write/flush/close, "
+               "os.fsync and os.rename are intercepted, the directory is read back from disk before each one (what a kill "
+               "at that point leaves) and the sequence of distinct crash states is compared with the Lean driver; a "
+               "process life that ends by a kill is emulated by redirecting the open file descriptors to /dev/null (the "
+               "buffers never reach the files); sampled crash points are checked against a forked child really killed "
+               "with os._exit",
                "a killed process loses its user-space buffers and nothing else: durability below fsync (power loss, page "
                "cache) is the operating system's contract and is not exercised",
                "records are shorter than the 8 KiB buffer of a Python file object, so nothing reaches the disk before a flush",
-               "the tree is /repo (+ the C22 patches, which do not touch rotation); theorems assume an empty log "
-               "directory at the first START and controls that follow the runner protocol"]
-    PARTIAL = ["all six theorems are full for one 'always' log per logger started on an empty directory; a process "
-               "restarted on the files of a previous process (reuse across processes), failing renames / opens (OSError "
-               "branches are in the model but proved unreachable), several logs per logger and binary logs are not covered",
+               "how many records a run writes under each rule is told to the model by the harness (which records a rule "
+               "logs is C22); the tree includes fixes/D53-log-reopen-empty-file-is-new.patch; theorems assume an empty log directory at the first START of the first life, the same "
+               "configuration in every life, and controls that follow the runner protocol"]
+    PARTIAL = ["all seven theorems are full, over any number of process lives and for every log rule, for the code with "
+               "fix patch fixes/D53-log-reopen-empty-file-is-new.patch (Cfg.emptyIsNew = true); "
+               "C23_D53_orig_headerless_after_empty_kill documents the code before the patch",
+               "not covered: process lives that end in the middle of a control (crash points inside a control are covered "
+               "for the files they leave, not for a restart from them), a different keep or directory layout in a later "
+               "life, failing renames / opens (OSError branches are in the model but proved unreachable), several logs "
+               "per logger, binary logs",
                "observation (not a violation of the property as stated): with keep and reuse a STOP logs, lets the cycle "
                "timer rotate, and then rotates once more; with fileSize 0 the second rotation moves a header-only file "
                "into the copies, so with keep=1 every record of the session has fallen off right after STOP"]
     TECHNIQUE = ("Lean 4: an invariant (contiguity with a flushed drop point, buffer = unflushed records, file shapes, newest "
                  "file = records since the last rotation) proved for EVERY prefix of the primitive trace of every "
-                 "protocol-respecting history, by one lemma per primitive and a loop invariant for the rename chain; + "
-                 "differential correspondence of the crash-state sequences and kill tests")
-    LEVEL_TEXT = ("Full proof on the model, for every configuration, every protocol-respecting history from an empty "
-                  "directory and EVERY crash point (prefix of the primitive trace, including the middle of a rotation): the "
-                  "retained files read oldest to newest plus the buffer are the record stream minus a dropped prefix "
+                 "protocol-respecting history over any number of process lives, by one lemma per primitive and a loop "
+                 "invariant for the rename chain; + differential correspondence of the crash-state sequences and kill tests")
+    LEVEL_TEXT = ("Proof on the model, for every configuration, every log rule (a run writes any batch of records or "
+                  "nothing), every protocol-respecting history over any number of process lives from an empty directory and "
+                  "EVERY crash point (prefix of the primitive trace, including the middle of a rotation): the retained files "
+                  "read oldest to newest plus the buffer are the surviving record stream minus a dropped prefix "
                   "(C23_rotation_contiguous); what a kill leaves is exactly the records written before the most recent "
-                  "flush minus that prefix (C23_crash_keeps_flushed); every file is empty or one header followed by records "
-                  "(C23_each_file_header); the newest file holds the records since the last rotation "
-                  "(C23_newest_since_rotation); the main file is renamed away only at or above fileSize "
-                  "(C23_rotate_only_at_size); the records are numbered in writing order, so the retained stretch is a run of "
-                  "consecutive distinct records (C23_records_numbered). The model is tied to logging.py by comparing, for real runs, the sequence of "
-                  "crash states read back before every intercepted primitive, and by killing forked children.")
+                  "flush minus that prefix (C23_crash_keeps_flushed); the newest file holds the records since the last "
+                  "rotation (C23_newest_since_rotation); the main file is renamed away only at or above fileSize "
+                  "(C23_rotate_only_at_size); record numbers never repeat (C23_records_numbered); every file is empty or "
+                  "one header followed by records (C23_each_file_header) - all FULL, for the code with fix D53. The model is tied to logging.py by comparing, for real runs, "
+                  "the sequence of crash states read back before every intercepted primitive, and by killing forked children.")
     LEVEL_NOTE = ("Trusted: Lean kernel; axioms propext, Classical.choice, Quot.sound; the hand transcription of "
                   "Log.reopen/close/flush/cycle and Logger.log validated only by the correspondence runs; kill tests "
-                  "exercise user-space buffers only (no power loss); one log per logger, empty directory at first START.")
+                  "exercise user-space buffers only (no power loss); one log per logger, empty directory at the first "
+                  "START; the tree is /repo with fix D53 applied.")
 
     # ---- protocol
     def requests(self, case):
         c = case["cfg"]
         return (["cfg %d %d %d %d %d %d" % (c["keep"], c["cycle"], c["fsize"], c["flush"], 1 if c["reuse"] else 0,
-                                            len(HEADER))] + self.model_ops(case) + ["states"])
+                                            len(header(c["rule"])))] + self.model_ops(case) + ["states"])
 
     def model_ops(self, case):
-        """the ops with the exact byte size of every record put in front of the control that writes it"""
+        """the ops with what every run writes (sizes in bytes) put in front of the control that writes it"""
         out = []
-        stamp = 0
-        n = 0
-        pad = 0
-        status = "stopped"
+        pl = Plan(case["cfg"]["rule"])
         for o in case["ops"]:
             w = o.split(" ")
             if w[0] == "adv":
-                stamp += int(w[1])
+                pl.stamp += int(w[1])
                 out.append(o)
             elif w[0] == "pad":
-                pad = int(w[1])
+                pl.pad = int(w[1])
+            elif w[0] == "put":
+                pl.put(int(w[1]))
+            elif w[0] == "reboot":
+                pl.new_life()
+                out.append("reboot")
             elif w[0] == "ctl":
-                writes = (w[1] in ("start", "run")) or (w[1] == "stop" and status != "stopped")
+                writes = (w[1] in ("start", "run")) or (w[1] == "stop" and pl.status != "stopped")
                 if writes:
-                    line = "%s\tr%d_%s\n" % (repr(stamp / 8.0), n, "x" * pad)
-                    out.append("size %d" % len(line))
-                    n += 1
-                status = {"start": "started", "run": "running", "stop": "stopped"}[w[1]]
+                    pl.before_run()
+                    b = pl.batch()
+                    out.append("recs " + ("-" if b is None else ("." if not b else ",".join(str(x) for x in b))))
+                    pl.ran(b)
+                pl.status = {"start": "started", "run": "running", "stop": "stopped"}[w[1]]
                 out.append(o)
         return out
 
@@ -265,59 +376,28 @@ class CHECK(core.Check):
 
     # ---- implementation adapter
     _n = 0
+    _region = {}
 
     def run_real(self, case, root, kill_at=None, snapshots=True):
-        """build the logger in `root`, run the history with the primitives intercepted"""
+        """run the history (all its process lives) in `root` with the primitives intercepted"""
         from ioflo.base import housing, storing, logging, globaling, tasking
-        for cls in (housing.House, storing.Store, logging.Logger, logging.Log, tasking.Tasker):
-            cls.Clear()
+        from ioflo.aid.odicting import odict
         c = case["cfg"]
-        house = housing.House(name="H")
-        store = house.store
-        logger = logging.Logger(name="L", store=store, prefix=root, reuse=bool(c["reuse"]), keep=c["keep"],
-                                cyclePeriod=c["cycle"] / 8.0, fileSize=c["fsize"], flushPeriod=c["flush"] / 8.0)
-        share = store.create("s.v")
-        share.change(value="init")
-        log = logging.Log(name=BASE, store=store, kind="text", baseFilename=BASE, rule=globaling.ALWAYS)
-        log.addLoggee(TAG, share, ["value"])
-        logger.addLog(log)
-        logger.resolve()
-        store.changeStamp(0.0)
-        # where the files will be
-        if c["reuse"]:
-            ldir = os.path.join(root, "H", "L")
-        else:
-            ldir = None
-        keep = logger.keep
-        state = {"dir": ldir}
-
-        def paths():
-            d = state["dir"]
-            if d is None:
-                hd = os.path.join(root, "H")
-                ds = os.listdir(hd) if os.path.isdir(hd) else []
-                if not ds:
-                    return None
-                state["dir"] = d = os.path.join(hd, ds[0])
-            return [os.path.join(d, BASE + ".txt")] + [os.path.join(d, "%s%02d.txt" % (BASE, k + 1)) for k in range(keep)]
-
-        rec = Recorder([], kill_at=kill_at, snapshots=snapshots)
+        rule = c["rule"]
+        rec = Recorder(kill_at=kill_at, snapshots=snapshots)
         real_ocfn, real_rename, real_fsync = logging.ocfn, os.rename, os.fsync
-
-        def refresh():
-            if not rec.paths:
-                p = paths()
-                if p:
-                    rec.paths = p
+        real_log_flush = logging.Log.flush
+        keepbox = [0]
 
         def ocfn(path, mode="r+", binary=False):
-            refresh()
-            if not rec.paths:      # first open: the directory has just been made
+            if not rec.paths and not rec.muted:      # first open of a life: this is the log directory
                 d = os.path.dirname(path)
-                state["dir"] = d
-                rec.paths = [os.path.join(d, BASE + ".txt")] + [os.path.join(d, "%s%02d.txt" % (BASE, k + 1)) for k in range(keep)]
+                rec.paths = [os.path.join(d, BASE + ".txt")] + [os.path.join(d, "%s%02d.txt" % (BASE, k + 1))
+                                                               for k in range(keepbox[0])]
             rec.event("open", (path, mode))
-            return Proxy(real_ocfn(path, mode, binary), rec, path)
+            p = Proxy(real_ocfn(path, mode, binary), rec, path)
+            rec.files.append(p)
+            return p
 
         def rename(a, b):
             k = rec.paths.index(a) if a in rec.paths else -1
@@ -325,51 +405,114 @@ class CHECK(core.Check):
             return real_rename(a, b)
 
         def fsync(fd):
+            if rec.muted:
+                return None
             rec.event("fsync")
             return real_fsync(fd)
-
-        real_log_flush = logging.Log.flush
 
         def log_flush(lg):
             was_open = bool(lg.file) and not lg.file.closed
             r = real_log_flush(lg)
-            if was_open:            # Log.flush() has returned: everything written so far counts as flushed
+            if was_open and not rec.muted:   # Log.flush() has returned: everything written so far counts as flushed
                 rec.pending_flush = None
-                rec.nf = rec.nw
+                rec.nf = len(rec.stream)
             return r
 
+        life = {}
+
+        def new_life():
+            for cls in (housing.House, storing.Store, logging.Logger, logging.Log, tasking.Tasker):
+                cls.Clear()
+            house = housing.House(name="H")
+            store = house.store
+            logger = logging.Logger(name="L", store=store, prefix=root, reuse=bool(c["reuse"]), keep=c["keep"],
+                                    cyclePeriod=c["cycle"] / 8.0, fileSize=c["fsize"], flushPeriod=c["flush"] / 8.0)
+            keepbox[0] = logger.keep
+            share = store.create("s.v")
+            share.change(value=[] if rule == "streak" else pl.cur)
+            log = logging.Log(name=BASE, store=store, kind="text", baseFilename=BASE,
+                              rule=getattr(globaling, rule.upper()))
+            log.addLoggee(TAG, share, ["value"])
+            logger.addLog(log)
+            logger.resolve()
+            store.changeStamp(0.0)
+            life.update(store=store, logger=logger, share=share)
+            if not c["reuse"]:              # a new, empty directory: the stream starts over
+                rec.paths = []
+                del rec.stream[:]
+                rec.nf = 0
+                rec.rot_start = 0
+                rec.bounds = []
+            rec.files = []
+
+        def end_life():
+            """kill: what is buffered never reaches the files; then let the dead runner finish silently"""
+            rec.life_ends()
+            for p in rec.files:
+                f = p._f
+                if not f.closed:
+                    dn = os.open(os.devnull, os.O_WRONLY)
+                    os.dup2(dn, f.fileno())
+                    os.close(dn)
+            rec.muted = True
+            try:
+                life["logger"].runner.close()
+            except Exception:
+                pass
+            rec.muted = False
+
+        pl = Plan(rule)
         logging.ocfn, os.rename, os.fsync = ocfn, rename, fsync
         logging.Log.flush = log_flush
         try:
-            n = 0
-            pad = 0
-            status = "stopped"
+            new_life()
             for o in case["ops"]:
                 w = o.split(" ")
                 if w[0] == "adv":
-                    store.advanceStamp(int(w[1]) / 8.0)
+                    pl.stamp += int(w[1])
+                    life["store"].advanceStamp(int(w[1]) / 8.0)
                 elif w[0] == "pad":
-                    pad = int(w[1])
+                    pl.pad = int(w[1])
+                elif w[0] == "put":
+                    vals = pl.put(int(w[1]))
+                    share = life["share"]
+                    if rule == "deck":
+                        for v in vals:
+                            share.push(odict(value=v))
+                    elif rule == "streak":
+                        for v in vals:
+                            share.value.append(v)
+                    elif rule == "update" and vals:
+                        share.update(value=vals[0])
+                    elif rule == "change" and vals:
+                        share.change(value=vals[0])
+                elif w[0] == "reboot":
+                    end_life()
+                    pl.new_life()
+                    new_life()
                 elif w[0] == "ctl":
-                    writes = (w[1] in ("start", "run")) or (w[1] == "stop" and status != "stopped")
+                    writes = (w[1] in ("start", "run")) or (w[1] == "stop" and pl.status != "stopped")
                     if writes:
-                        share.change(value="r%d_%s" % (n, "x" * pad))
-                        n += 1
-                    logger.runner.send({"start": globaling.START, "run": globaling.RUN, "stop": globaling.STOP}[w[1]])
-                    status = {"start": "started", "run": "running", "stop": "stopped"}[w[1]]
+                        v = pl.before_run()
+                        if v is not None:
+                            life["share"].change(value=v)
+                        b = pl.batch()
+                    life["logger"].runner.send({"start": globaling.START, "run": globaling.RUN,
+                                                "stop": globaling.STOP}[w[1]])
+                    if writes:
+                        pl.ran(b)
+                    pl.status = {"start": "started", "run": "running", "stop": "stopped"}[w[1]]
             rec.finish()
         finally:
-            logging.ocfn, os.rename, os.fsync = real_ocfn, real_rename, real_fsync
-            logging.Log.flush = real_log_flush
-            # finish the runner now (its `finally` closes the files); left to the garbage collector it would
-            # call os.fsync in the middle of a later case
             rec.snapshots = False
             rec.kill_at = None
             try:
-                logger.runner.close()
+                end_life()
             except Exception:
                 pass
-        return rec, keep
+            logging.ocfn, os.rename, os.fsync = real_ocfn, real_rename, real_fsync
+            logging.Log.flush = real_log_flush
+        return rec, keepbox[0]
 
     def kill_run(self, case, k):
         """really kill a child before primitive k; return the files it leaves"""
@@ -388,18 +531,21 @@ class CHECK(core.Check):
         try:
             if os.WEXITSTATUS(status) != 0:
                 return "child-exit-%d" % os.WEXITSTATUS(status)
-            c = case["cfg"]
-            hd = os.path.join(root, "H")
-            ds = os.listdir(hd) if os.path.isdir(hd) else []
             keep = self._keep
+            hd = os.path.join(root, "H")
+            ds = sorted(os.listdir(hd)) if os.path.isdir(hd) else []
             if not ds:
                 return ";".join(["-"] * (keep + 1))
-            d = os.path.join(hd, ds[0])
-            ps = [os.path.join(d, BASE + ".txt")] + [os.path.join(d, "%s%02d.txt" % (BASE, j + 1)) for j in range(keep)]
-            r = Recorder(ps)
-            return r.read_state()
+            # the directory of the last life (with reuse there is only one)
+            ds.sort(key=lambda x: os.path.getmtime(os.path.join(hd, x)))
+            return [self._read_dir(os.path.join(hd, x), keep) for x in ds]
         finally:
             shutil.rmtree(root, ignore_errors=True)
+
+    def _read_dir(self, d, keep):
+        r = Recorder()
+        r.paths = [os.path.join(d, BASE + ".txt")] + [os.path.join(d, "%s%02d.txt" % (BASE, j + 1)) for j in range(keep)]
+        return r.read_state()
 
     def impl(self, case):
         CHECK._n += 1
@@ -410,9 +556,8 @@ class CHECK(core.Check):
         finally:
             shutil.rmtree(root, ignore_errors=True)
         self._keep = keep
-        states = [s[0] if s[0] != "" else ";".join(["-"] * (keep + 1)) for s in rec.snaps]
-        # before the directory exists nothing exists
-        states = [s if s else ";".join(["-"] * (keep + 1)) for s in states]
+        nothing = ";".join(["-"] * (keep + 1))
+        states = [s[0] if s[0] != "" else nothing for s in rec.snaps]
         ded = []
         for s in states:
             if not ded or ded[-1] != s:
@@ -423,34 +568,36 @@ class CHECK(core.Check):
         pts = range(len(states)) if kills == "all" else [k for k in kills if k < len(states)]
         for k in pts:
             got = self.kill_run(case, k)
-            if got != states[k]:
+            ok = (got == states[k]) if not isinstance(got, list) else (states[k] in got or (states[k] == nothing and not got))
+            if not ok:
                 bad = "kills: mismatch at primitive %d: killed child left %s, read-back was %s" % (k, got, states[k])
                 break
         return ["states: " + " || ".join(ded), bad or "kills: ok"]
 
     # ---- oracle
-    def oracle(self, case, out):
+    def failures(self, case, out):
         if not proto_ok(case["ops"]):
-            return None            # the property speaks about controls that follow the runner protocol
+            return []              # the property speaks about controls that follow the runner protocol
         if out and out[0].startswith("HARNESS-EXC"):
-            return "adapter failed: %s" % out[0]
+            return [("harness", "adapter failed: %s" % out[0])]
         last = getattr(self, "_last", None)
         if last is None or last[0] != core.case_key(case):
             self.safe_impl(case)
             last = getattr(self, "_last", None)
             if last is None or last[0] != core.case_key(case):
-                return "adapter failed"
+                return [("harness", "adapter failed")]
         _, rec, states = last
         if len(out) > 1 and out[1] != "kills: ok":
-            return out[1]
+            return [("kill", out[1])]
         fsize = max(0, case["cfg"]["fsize"])
         for k, size in rec.renames:
             if k == 0 and size is not None and fsize and size < fsize:
-                return "rotated a main file of %d bytes, threshold %d" % (size, fsize)
+                return [("size", "rotated a main file of %d bytes, threshold %d" % (size, fsize))]
         keep = self._keep
-        for idx, (st, nw, nf, rot, bounds) in enumerate(rec.snaps):
+        for idx, (st, stream, nf, rot, bounds) in enumerate(rec.snaps):
             if st == "":
                 continue
+            pos = {n: i for i, n in enumerate(stream)}
             files = parse_state(st)
             seq = []
             for j in range(len(files) - 1, -1, -1):          # oldest first
@@ -458,22 +605,22 @@ class CHECK(core.Check):
                 if f is None:
                     continue
                 if any(t.startswith("?") for t in f):
-                    return "crash point %d: file %d holds something that is not a header or a whole record: %s" % (idx, j, f)
+                    return [("content", "crash point %d: file %d holds something that is not a header or a whole record: %s" % (idx, j, f))]
                 if f:
                     if f[0] != "H":
-                        return "crash point %d: file %d does not start with the header: %s" % (idx, j, f[:3])
+                        return [("header", "crash point %d: file %d does not start with the header: %s" % (idx, j, f[:3]))]
                     if "H" in f[1:]:
-                        return "crash point %d: file %d has a second header" % (idx, j)
+                        return [("header", "crash point %d: file %d has a second header" % (idx, j))]
                 for t in f[1:]:
                     n = int(t[1:t.index(":")])
-                    if j > 0 and n >= rot:
-                        return "crash point %d: record %d, written after the last rotation, is in copy %d" % (idx, n, j)
-                    if j == 0 and n < rot:
-                        return "crash point %d: record %d, written before the last rotation, is in the newest file" % (idx, n)
+                    if n not in pos:
+                        return [("lost", "crash point %d: record %d is in the files but was never written or was lost with a "
+                                 "killed process: %s" % (idx, n, st))]
+                    if j > 0 and pos[n] >= rot:
+                        return [("newest", "crash point %d: record %d, written after the last rotation, is in copy %d" % (idx, n, j))]
+                    if j == 0 and pos[n] < rot:
+                        return [("newest", "crash point %d: record %d, written before the last rotation, is in the newest file" % (idx, n))]
                     seq.append(n)
-            for a, b in zip(seq, seq[1:]):
-                if b != a + 1:
-                    return "crash point %d: records %d then %d read oldest to newest (not contiguous / duplicated): %s" % (idx, a, b, st)
             # nothing flushed may be missing except whole stretches that fell off the oldest copy: the files hold
             # the flushed records from the start of one of the last keep (+1 while a rotation is under way) stretches
             m = len(bounds)
@@ -482,53 +629,67 @@ class CHECK(core.Check):
                 if back < 0:
                     continue
                 starts.add(bounds[m - back - 1] if m - back - 1 >= 0 else 0)
-            if not any(seq == list(range(a, nf)) for a in starts if a <= nf):
-                return ("crash point %d: %d records were written before the last flush, rotations after records %s, keep %d; "
-                        "the files hold %s: %s" % (idx, nf, list(bounds), keep, seq, st))
-            if seq and seq[-1] > nw - 1:
-                return "crash point %d: record %d in the files before it was written" % (idx, seq[-1])
-        return None
+            if not any(seq == list(stream[a:nf]) for a in starts if a <= nf):
+                return [("flushed", "crash point %d: records %s were written before the last flush, rotations after %s of them, "
+                         "keep %d; the files hold %s: %s" % (idx, list(stream[:nf]), list(bounds), keep, seq, st))]
+        return []
+
+    def oracle(self, case, out):
+        f = self.failures(case, out)
+        self._fail = (core.case_key(case), f)
+        return "; ".join(m for _, m in f) if f else None
 
     def nontrivial(self, case, out):
-        return "r1:" in out[0]
+        return out[0].count(",r") >= 1
 
     def bucket(self, case, out):
         c = case["cfg"]
-        rot = out[0].count("-;") > 0
-        return "keep%d%s%s%s" % (c["keep"], ",size" if c["fsize"] > 0 else "", ",reuse" if c["reuse"] else "",
-                                 ",rotated" if (" || -;" in out[0] and c["keep"] > 0) else "")
+        lives = 1 + sum(1 for o in case["ops"] if o == "reboot")
+        return "%s,keep%d%s%s,lives%d%s" % (c["rule"], c["keep"], ",size" if c["fsize"] > 0 else "",
+                                            ",reuse" if c["reuse"] else "", lives,
+                                            ",rotated" if (" || -;" in out[0] and c["keep"] > 0) else "")
 
     # ---- generators
-    def gen_case(self, rng, tier):
+    def gen_case(self, rng, tier, clean=False):
         keep = rng.choice([0, 1, 1, 2, 2, 3])
+        rule = rng.choice(["always", "always", "always", "deck", "deck", "streak", "streak", "update", "change", "once", "never"])
         cfg = {"keep": keep, "cycle": rng.choice([0, 2, 4, 8, 8, 16, 24]), "fsize": rng.choice([0, 0, 40, 60, 90, 150, 300]),
-               "flush": rng.choice([0, 8, 8, 12, 16, 32]), "reuse": rng.random() < 0.5}
+               "flush": rng.choice([0, 8, 8, 12, 16, 32]), "reuse": rng.random() < 0.6, "rule": rule}
         ops = []
-        if rng.random() < 0.3:
-            ops.append("pad %d" % rng.randrange(30))
-        ops.append("ctl start")
-        started = True
-        for t in range(rng.choice([2, 4, 6, 8, 12, 16])):
-            r = rng.random()
-            if r < 0.8:
-                ops.append("adv %d" % rng.choice([1, 2, 4, 4, 8, 8, 12]))
-            if rng.random() < 0.2:
-                ops.append("pad %d" % rng.randrange(40))
-            r = rng.random()
-            if started:
-                if r < 0.85:
-                    ops.append("ctl run")
-                elif r < 0.93:
+        lives = rng.choice([1, 1, 2, 2, 3])
+        for life in range(lives):
+            if rng.random() < 0.3:
+                ops.append("pad %d" % rng.randrange(30))
+            if rng.random() < 0.5:
+                ops.append("put %d" % rng.choice([1, 1, 2, 3]))
+            ops.append("ctl start")
+            started = True
+            for t in range(rng.choice([1, 2, 4, 6, 8, 12])):
+                if rng.random() < 0.85:
+                    ops.append("adv %d" % rng.choice([1, 2, 4, 4, 8, 8, 12]))
+                if rng.random() < 0.2:
+                    ops.append("pad %d" % rng.randrange(40))
+                if rng.random() < 0.6:
+                    ops.append("put %d" % rng.choice([1, 1, 1, 2, 3]))
+                r = rng.random()
+                if started:
+                    if r < 0.85:
+                        ops.append("ctl run")
+                    elif r < 0.93:
+                        ops.append("ctl stop")
+                        started = False
+                else:
+                    if r < 0.7:
+                        ops.append("ctl start")
+                        started = True
+            if started and rng.random() < (0.5 if life < lives - 1 else 0.4):
+                ops.append("ctl stop")
+                started = False
+            if life < lives - 1:
+                if clean and started:
                     ops.append("ctl stop")
-                    started = False
-            else:
-                if r < 0.7:
-                    ops.append("ctl start")
-                    started = True
-        if started and rng.random() < 0.5:
-            ops.append("ctl stop")
-        case = {"cfg": cfg, "ops": ops}
-        return case
+                ops.append("reboot")
+        return {"cfg": cfg, "ops": ops}
 
     def generate(self, rng, n, tier):
         for i in range(n):
@@ -536,18 +697,32 @@ class CHECK(core.Check):
             if tier == "thorough":
                 c["kills"] = "all" if i % 150 == 0 else ([rng.randrange(60)] if i % 2 == 0 else [])
             else:
-                c["kills"] = [rng.randrange(40)] if i % 4 == 0 else []
+                c["kills"] = [rng.randrange(40)] if i % 8 == 0 else []
             yield c
 
     def exhaustive(self, tier):
-        """every configuration of a small grid over a fixed stream with two restarts-free rotations"""
-        ops = ["ctl start", "adv 4", "ctl run", "adv 4", "ctl run", "adv 8", "ctl run", "adv 8", "ctl run", "ctl stop"]
-        keeps = [0, 1, 2] if tier == "quick" else [0, 1, 2, 3]
-        for keep, cycle, fsize, flush, reuse in itertools.product(keeps, [0, 8, 16], [0, 60], [8, 16], [False, True]):
-            yield {"cfg": {"keep": keep, "cycle": cycle, "fsize": fsize, "flush": flush, "reuse": reuse}, "ops": ops,
-                   "kills": "all" if (keep == 2 and cycle == 8 and flush == 8 and fsize == 0 and reuse
-                                      and tier == "thorough") else
-                            ([7, 12, 25] if (keep == 2 and cycle == 8 and flush == 8) else [])}
+        """a small grid of configurations x rules over fixed streams: one life with two rotations, and two lives
+        (the second on the files of the first) that both rotate"""
+        one = ["put 2", "ctl start", "adv 4", "put 1", "ctl run", "adv 4", "put 2", "ctl run", "adv 8", "put 1", "ctl run",
+               "adv 8", "put 1", "ctl run", "ctl stop"]
+        two = ["put 1", "ctl start", "adv 8", "put 2", "ctl run", "adv 8", "put 1", "ctl run", "ctl stop", "reboot",
+               "put 1", "ctl start", "adv 8", "put 2", "ctl run", "adv 8", "put 1", "ctl run", "adv 8", "put 1", "ctl run"]
+        killed = ["put 1", "ctl start", "adv 8", "put 2", "ctl run", "adv 2", "put 1", "ctl run", "reboot",
+                  "put 1", "ctl start", "adv 8", "put 2", "ctl run", "adv 8", "put 1", "ctl run"]
+        keeps = [0, 2] if tier == "quick" else [0, 1, 2, 3]
+        rules = ["always", "deck"] if tier == "quick" else RULES
+        for rule, keep, cycle, fsize, flush, reuse in itertools.product(rules, keeps, [0, 8, 16], [0, 60], [8, 16],
+                                                                        [False, True]):
+            for name, ops in (("one", one), ("two", two), ("killed", killed)):
+                if tier == "quick" and (flush == 16 or (cycle == 0 and name != "one")):
+                    continue
+                if tier == "thorough" and flush == 16 and rule not in ("always", "deck"):
+                    continue
+                sel = (keep == 2 and cycle == 8 and flush == 8)
+                yield {"cfg": {"keep": keep, "cycle": cycle, "fsize": fsize, "flush": flush, "reuse": reuse, "rule": rule},
+                       "ops": ops,
+                       "kills": "all" if (sel and fsize == 0 and reuse and tier == "thorough" and rule in ("always", "deck"))
+                       else ([7, 12, 25] if (sel and rule == "deck" and fsize == 0 and reuse) else [])}
 
     def search(self, rng, n, tier):
         for i in range(n):
